@@ -1,3 +1,5 @@
+#[cfg(feature = "std")]
+pub mod blockwise;
 pub mod engine;
 pub mod gen;
 pub mod pkt;
